@@ -5,6 +5,13 @@ LEVEL = "other"   # part of the statement is proved, the rest is decided on the 
 FAMILY = "classic"
 
 
+MANIFEST = {
+ "level": 'other',
+ "text": 'Partly proved, partly explored. Proved for every tree (any size, depth, sharing; atoms up to 2^34-1 bytes) about the Gallina model of write_atom/ser/de/parse_atom/tools/serialized_length: node_to_bytes = the recursive ser, node_from_stream(ser t ++ rest) = (t, rest), is_canonical_serialization(ser t) = true, trusted serialized length = byte count, object-cache length = byte count (u32/saturating arithmetic, below 2^32-5). Not proved: the converse direction (decodes + judged canonical => re-serializes to the consumed bytes) and the untrusted length function; those are decided by a search on the implementation (random/structured byte strings and trees). The model is run against the implementation on trees with atoms at every prefix boundary, and its literals are pinned to constants the translator re-reads from the source.',
+ "note": vlib.NOTE_COMMON + " Level 'other' because the full conjunction is not proved (Props/C15.v names the missing conjuncts).",
+ "technique": 'Coq proof (induction over trees, explicit-stack/fuel refinement) + translator pins + model/implementation differential run + implementation search',
+}
+
 def run(ctx):
     r = ctx.rng
     ctx.rule = ("random/list/complete/shared trees with atoms at every length-prefix boundary (0,1,0x3f/0x40,0x1fff/0x2000, "
